@@ -717,7 +717,18 @@ def solve_matrix(matrix, mode=EXACT):
     fs = [Factoid(f) if isinstance(f, collections.abc.Iterable) else f for f in matrix]
     db = dict()
     for ft in fs:
-        insert_db(db, dfactoid(ft, ASM(ft)))
+        df = dfactoid(ft, ASM(ft))
+        # The elimination procedure assumes that the variable coefficients of every
+        # factoid have gcd 1 (it does this for the factoids it derives): normalize
+        # the input factoids in the same way, and treat constant factoids here.
+        g = functools.reduce(gcd, df.factoid[:-1], 0)
+        if g > 1:
+            df = dfactoid(Factoid([floor(i / g) for i in df.factoid]), GCDCheck(df.deriv))
+        if df.factoid.is_true_factoid():
+            continue
+        elif df.factoid.is_false_factoid():
+            return "UNSAT", Contr(df.deriv)
+        insert_db(db, df)
     r = solve(EXACT, db, len(matrix[0]))
     if isinstance(r, Satisfiable):
         return "SAT", r.store
